@@ -455,14 +455,14 @@ def replay(ctx, path):
     recs, codec_cases = [], []
     for c in doc["cases"]:
         c = c["case"]
-        if c.get("stage") == "B" and "script" in c:
-            rc = None
+        if "script" in c or "script" in c.get("recipe", {}):
+            c = c if "script" in c else c["recipe"]
             stream = real_stream(p2p, c["script"])
             sock = sockrig.ScriptSock(stream, chunks=c["chunks"])
             calls = sockrig.run_calls(p2p, sock, max_calls=len(c["script"]) + 1)
             recs.append({"id": len(recs), "magic": list(p2p.MAGIC_START_BYTES), "stream": list(stream), "calls": calls,
                          "rt": [{"on": False, "cmd": [], "payload": []}] * len(calls), "recipe": {"script": c["script"], "chunks": c["chunks"]},
-                         "field": c.get("fault")})
+                         "field": c["script"][-1]["f"]})
         elif "recipe" in c:
             r = run_exec(p2p, c["recipe"])
             r["id"], r["recipe"] = len(recs), c["recipe"]
